@@ -571,6 +571,7 @@ static SEQS: AtomicU64 = AtomicU64::new(0);
 static CALLS: AtomicU64 = AtomicU64::new(0);
 static SWEEP: AtomicU64 = AtomicU64::new(0);
 static SKIPPED_K01: AtomicU64 = AtomicU64::new(0);
+static EMOJI_SWEEP: AtomicU64 = AtomicU64::new(0);
 static STRINGS: AtomicU64 = AtomicU64::new(0);
 
 struct Shard {
@@ -748,8 +749,51 @@ fn run_shard(depth: usize, k: usize, n: usize, dir: &str) -> i32 {
             }
         }
     }
+    // ---- emoji sweep: every emoticon and every English emoji name typed through the C interface under the phonetic list profile and
+    // read out through every accessor (before and after the context is freed): the strings that cross the boundary cover every
+    // emoji character of the tables (code points of every shape), each compared with what the Rust API reports
+    {
+        let mut texts: Vec<String> = emojicon::internal::emoticons().keys().map(|k| k.to_string()).collect();
+        texts.extend(emojicon::internal::emojis().keys().map(|k| k.to_string()));
+        texts.sort();
+        texts.dedup();
+        for (ti, t) in texts.iter().enumerate() {
+            if ti % n != k {
+                continue;
+            }
+            let Some(codes) = t.chars().map(keys::code_for_char).collect::<Option<Vec<u16>>>() else { continue };
+            if codes.is_empty() {
+                continue;
+            }
+            let mut full: Vec<Act> = vec![Act::CfgNew(0), Act::CtxNew];
+            for (i, c) in codes.iter().enumerate() {
+                full.push(Act::KeyRaw(*c, 0));
+                full.push(if i + 1 < codes.len() { Act::SugFree(0) } else { Act::Read(0) });
+            }
+            {
+                use std::io::Seek;
+                let _ = sh.journal.seek(std::io::SeekFrom::Start(0));
+                let _ = sh.journal.write_all(format!("{}\n{:200}\n", seq_json(&full), "").as_bytes());
+            }
+            let o = execute(&full, &sh.xdg, 4);
+            SEQS.fetch_add(1, Ordering::Relaxed);
+            EMOJI_SWEEP.fetch_add(1, Ordering::Relaxed);
+            CALLS.fetch_add(o.calls, Ordering::Relaxed);
+            STRINGS.fetch_add(o.strings, Ordering::Relaxed);
+            let mut problems = o.problems.clone();
+            if o.leaked_blocks != 0 {
+                let o2 = execute(&full, &sh.xdg, 4);
+                if o2.leaked_blocks > 0 {
+                    problems.push(format!("leak: {} heap block(s) / {} byte(s) still live after every handle was freed (second run: {} / {})", o.leaked_blocks, o.leaked_bytes, o2.leaked_blocks, o2.leaked_bytes));
+                }
+            }
+            if !problems.is_empty() {
+                sh.findings.push(serde_json::json!({"sequence": full.iter().map(act_name).collect::<Vec<_>>(), "problems": problems}));
+            }
+        }
+    }
     let out = serde_json::json!({
-        "shard": k, "sequences": SEQS.load(Ordering::Relaxed), "key_sweep_sequences": SWEEP.load(Ordering::Relaxed), "key_sweep_skipped_k01": SKIPPED_K01.load(Ordering::Relaxed), "calls": CALLS.load(Ordering::Relaxed), "strings": STRINGS.load(Ordering::Relaxed),
+        "shard": k, "sequences": SEQS.load(Ordering::Relaxed), "key_sweep_sequences": SWEEP.load(Ordering::Relaxed), "key_sweep_skipped_k01": SKIPPED_K01.load(Ordering::Relaxed), "emoji_sweep_sequences": EMOJI_SWEEP.load(Ordering::Relaxed), "calls": CALLS.load(Ordering::Relaxed), "strings": STRINGS.load(Ordering::Relaxed),
         "findings": sh.findings,
         "samples": sh.samples,
     });
